@@ -21,6 +21,7 @@ pub struct Info {
     pub n_forms: usize,
     pub has_heap: bool,
     pub positional: bool,
+    pub ordered: bool,
 }
 
 pub fn info<S: Spec>(e: &Entry<S>) -> Info {
@@ -38,6 +39,7 @@ pub fn info<S: Spec>(e: &Entry<S>) -> Info {
         serde: e.ser.is_some(),
         n_forms: e.forms.len(),
         has_heap: e.has_heap,
+        ordered: e.cmp.is_some(),
     }
 }
 
@@ -146,6 +148,46 @@ impl<'a> crate::catalogue::StackVisitor for StackJobs<'a> {
 fn stacks(out: &mut Vec<Job>, oracle: StackOracle, depth: usize, devs: &[(usize, usize, u8)], n_values: usize) {
     let mut v = StackJobs { out, oracle, depth, devs: devs.to_vec(), n_values };
     crate::catalogue::visit_stacks(&mut v);
+}
+
+struct AllocJobs<'a> {
+    out: &'a mut Vec<Job>,
+    thorough: bool,
+}
+
+impl<'a> Visitor for AllocJobs<'a> {
+    fn visit<S: Spec>(&mut self, e: Entry<S>) {
+        let coded = e.coded != crate::spec::Coded::No;
+        if e.vector_backed && !coded && e.has_heap {
+            let (prefix, batch) = if self.thorough { (2, 3) } else { (2, 2) };
+            let e2 = e.clone();
+            let mut b = BfsCfg::new(prefix + 1);
+            b.max_states = 8_000_000;
+            self.out.push(job(move || Box::new(crate::m_alloc::AllocMachine::<S>::new(e2.clone(), prefix, batch)), Mode::Bfs(b), false));
+        }
+        if e.plain && !coded && !e.zst && e.has_heap {
+            let max_log2 = if self.thorough { 14 } else { 10 };
+            let e2 = e.clone();
+            self.out.push(job(move || Box::new(crate::m_alloc::LogMachine::<S>::new(e2.clone(), max_log2)), Mode::Bfs(BfsCfg::new(1)), false));
+        }
+    }
+}
+
+struct StackAllocJobs<'a> {
+    out: &'a mut Vec<Job>,
+    thorough: bool,
+}
+
+impl<'a> crate::catalogue::StackVisitor for StackAllocJobs<'a> {
+    fn visit<S: Spec, C: flatcontainer::impls::index::IndexContainer<crate::spec::Idx<S>> + 'static>(&mut self, e: Entry<S>, caps: StackCaps<S, C>) {
+        if caps.cname != "Vec<Index>" || caps.copy_owned.is_none() || e.coded != crate::spec::Coded::No || !e.has_heap {
+            return;
+        }
+        let batch = if self.thorough { 3 } else { 2 };
+        let mut b = BfsCfg::new(2);
+        b.max_states = 8_000_000;
+        self.out.push(job(move || Box::new(crate::m_alloc::StackAllocMachine::<S, C>::new(e.clone(), caps.clone(), batch)), Mode::Bfs(b), false));
+    }
 }
 
 fn life(
@@ -335,11 +377,48 @@ pub fn jobs(prop: &str, tier: &str) -> Vec<Job> {
             life(&mut out, c, if thorough { 5 } else { 4 }, devs, &|_| true, &|_, _| {});
             stacks(&mut out, StackOracle::Presize, if thorough { 5 } else { 4 }, &[], 3);
         }
+        "C11" => {
+            let mut c = LifeCfg::new("C11");
+            c.clear = true;
+            c.merge = true;
+            c.clone_replace = true;
+            c.serde_replace = true;
+            c.finite_only = false;
+            c.o_model = true;
+            c.n_values = 3;
+            c.n_forms = 2;
+            let devs: &[(usize, usize, u8)] = if thorough { &[(48, 2, 1)] } else { &[(24, 1, 1)] };
+            life(&mut out, c, if thorough { 7 } else { 5 }, devs, &|i| i.collapse, &|i, c| {
+                // NaN is part of these alphabets (never-equal values); JSON cannot carry it
+                if i.name.contains("f64") {
+                    c.serde_replace = false;
+                }
+            });
+        }
+        "C17" => {
+            let mut v = AllocJobs { out: &mut out, thorough };
+            crate::catalogue::visit_all(&mut v);
+            let mut v = StackAllocJobs { out: &mut out, thorough };
+            crate::catalogue::visit_stacks(&mut v);
+        }
+        "C18" => {
+            let mut c = LifeCfg::new("C18");
+            c.clear = true;
+            c.merge = true;
+            c.reserve_items = true;
+            c.o_model = true;
+            c.n_values = 4;
+            c.n_forms = 2;
+            let devs: &[(usize, usize, u8)] = if thorough { &[(48, 2, 0)] } else { &[(24, 1, 0)] };
+            life(&mut out, c, if thorough { 5 } else { 4 }, devs, &|i| i.has_heap, &|_, _| {});
+            stacks(&mut out, StackOracle::Space, if thorough { 5 } else { 3 }, &[], 3);
+        }
         "C12" => {
             let mut c = LifeCfg::new("C12");
             c.clear = true;
             c.merge = true;
             c.o_dense = true;
+            c.o_model = true;
             c.n_forms = 3;
             let devs: &[(usize, usize, u8)] = if thorough { &[(64, 2, 0)] } else { &[(32, 1, 0)] };
             life(&mut out, c, if thorough { 7 } else { 5 }, devs, &|i| i.dense, &|_, _| {});
@@ -356,6 +435,28 @@ pub fn jobs(prop: &str, tier: &str) -> Vec<Job> {
             c.o_owned_laws = true;
             c.n_forms = usize::MAX;
             life(&mut out, c, if thorough { 3 } else { 2 }, &[], &|_| true, &|_, _| {});
+        }
+        "C15" => {
+            let mut c = LifeCfg::new("C15");
+            c.o_order = true;
+            c.n_values = 5;
+            c.n_forms = 1;
+            life(&mut out, c, if thorough { 4 } else { 3 }, &[], &|i| i.ordered, &|_, _| {});
+            use crate::m_huff::*;
+            let mut profiles = vec![fib_profile(3), fib_profile(6), uniform_profile(3, 1)];
+            if thorough {
+                profiles.extend(small_profiles(3));
+                profiles.push(fib_profile(12));
+            } else {
+                profiles.extend(small_profiles(2));
+            }
+            for p in profiles {
+                let p2 = p.clone();
+                out.push(job(move || Box::new(HuffCmpMachine::<u8>::new(p.clone())), Mode::Bfs(BfsCfg::new(1)), false));
+                if p2.name.starts_with("uniform") || p2.name == "fib12" {
+                    out.push(job(move || Box::new(HuffCmpMachine::<u16>::new(p2.clone())), Mode::Bfs(BfsCfg::new(1)), false));
+                }
+            }
         }
         "C16" => {
             let mut c = LifeCfg::new("C16");
